@@ -34,4 +34,27 @@ PROPS = {
         'assumptions': ['bv_decide: LRAT certificates checked by the compiled checker (axioms *.bv_decide.ax_*)',
                         'rs2lean renders the whitelisted expression subset faithfully (cross-checked by the unit run)'],
     },
+    'C16': {
+        'oracles': ['C16'],
+        'geoms': {'quick': ['default'], 'thorough': ['default', 'th1', 'k16']},
+        'runs': {'quick': [{'args': ['unit', 'sbuf', '--seed', '{seed}', '--n', '3000', '--exhaustive', '5']}, unit('sbest', 3000)],
+                 'thorough': [{'args': ['unit', 'sbuf', '--seed', '{seed}', '--n', '200000', '--exhaustive', '8']}, unit('sbest', 200000)]},
+        'rule': ('SortedBuffer: bounded-exhaustive insertion sequences (length <= 5 quick / 8 thorough) over 4 ratings for '
+                 'capacities 0..8 plus seeded random long sequences (ties tracked by insertion index); search_best over '
+                 'random tree-counter/class/reserved arrays of 1..24 trees with the three rating closures of llfree.rs and '
+                 'a recording access callback; implementation vs model, plus the top-N / best-first oracle. '
+                 'distinct_nontrivial = distinct (capacity, length/kept or rating-shape) signatures.'),
+        'assumptions': ['"rating" is the order the source defines for (Policy, entirely_free): derive(Ord) Match(u8) < Demote < Steal'],
+    },
+    'C19': {
+        'oracles': ['C19'],
+        'geoms': {'quick': ['default'], 'thorough': ['default']},
+        'runs': {'quick': [unit('req', 300)], 'thorough': [unit('req', 30000)]},
+        'rule': ('class configurations rendered as JSON and parsed by the evaluation crate itself: all combinations of the 5 '
+                 'slot-count kinds for 1-3 classes, random 4-class ones, repeated ids, random order ranges and GFP matcher '
+                 'trees (depth <= 3), plus the shipped results/classes*.json; requests for cores 1..16, core/pid 0..64, '
+                 'orders 0..10, GFP flag subsets; (class, slot, slot count) compared with the Lean model and checked against '
+                 'the oracle slot < slots(class). distinct_nontrivial = distinct (source, slot present, #classes) signatures.'),
+        'assumptions': ['JSON parsing (facet) is outside the model: configurations enter the model in a rendered syntax'],
+    },
 }
